@@ -30,7 +30,7 @@ func c18LimitInterp(t *testing.T, c c18Case, timed bool) kit.Verdict {
 	v := c18NewV()
 	c18CaseClasses(v, c)
 	v.class(fmt.Sprintf("n=%d", c.N))
-	log, res := c18Play(t, c, func(clk *c18Clock, log *c18Log) (func(g, i int, op c18Op), func()) {
+	log, res := c18PlayRounds(t, c, !timed, func(clk *c18Clock, log *c18Log) (func(g, i int, op c18Op), func()) {
 		var lim c18Limiter
 		var plain syncx.Limit
 		var tl syncx.TimeoutLimit
@@ -270,11 +270,11 @@ func c18LimitGen(timed bool) func(rt *rapid.T) c18Case {
 }
 
 func TestVerif_C18_limit(t *testing.T) {
-	kit.Run(t, c18ID, "limit", kit.Opts{Quick: 10000, Thorough: 480000}, c18LimitGen(false),
+	kit.Run(t, c18ID, "limit", kit.Opts{Quick: 6000, Thorough: 320000}, c18LimitGen(false),
 		func(c c18Case) kit.Verdict { return c18LimitInterp(t, c, false) })
 }
 
 func TestVerif_C18_timeoutlimit(t *testing.T) {
-	kit.Run(t, c18ID, "timeoutlimit", kit.Opts{Quick: 10000, Thorough: 480000}, c18LimitGen(true),
+	kit.Run(t, c18ID, "timeoutlimit", kit.Opts{Quick: 6000, Thorough: 320000}, c18LimitGen(true),
 		func(c c18Case) kit.Verdict { return c18LimitInterp(t, c, true) })
 }
